@@ -76,7 +76,7 @@ fn lists(alpha: &[&'static str], max: usize) -> Vec<Vec<&'static str>> {
 pub fn run() -> i32 {
     let mut rep = Report::new(
         "fileset",
-        "every source list of length <= 3 over 7 spellings x every reference list of length <= 2 over 7 spellings, on a scratch tree with a symlink, a nested directory and a non-Slice file",
+        "every source list of length <= 3 over 7 spellings x every reference list of length <= 2 over 7 spellings, on a scratch tree with symlinks (listed explicitly, and to a file / a directory / an already listed file INSIDE a reference directory), a nested directory and a non-Slice file",
     );
     let base = std::env::var("VERIF_SCRATCH").map(PathBuf::from).unwrap_or_else(|_| std::env::temp_dir());
     let root = base.join(format!("slicec_fileset_{}", std::process::id()));
@@ -86,6 +86,16 @@ pub fn run() -> i32 {
         fs::write(root.join(f), "module M\n").unwrap();
     }
     fs::write(root.join("dir/notes.txt"), "x").unwrap();
+    // outside the tree the arguments name: reachable only through the links inside dir/
+    fs::create_dir_all(root.join("elsewhere/deep")).unwrap();
+    fs::write(root.join("elsewhere/far.slice"), "module M\n").unwrap();
+    fs::write(root.join("elsewhere/deep/deeper.slice"), "module M\n").unwrap();
+    #[cfg(unix)]
+    {
+        std::os::unix::fs::symlink(root.join("elsewhere/far.slice"), root.join("dir/linked_file.slice")).unwrap();
+        std::os::unix::fs::symlink(root.join("elsewhere/deep"), root.join("dir/sub/linked_dir")).unwrap();
+        std::os::unix::fs::symlink(root.join("b.slice"), root.join("dir/sub/alias_of_b.slice")).unwrap();
+    }
     #[cfg(unix)]
     std::os::unix::fs::symlink(root.join("a.slice"), root.join("link.slice")).unwrap();
     #[cfg(not(unix))]
